@@ -414,9 +414,10 @@ class _resolve_called_lambdas(ast.NodeTransformer):
                 return result
         return self.generic_visit(node)
 
-    def visit_Lambda(self, node: ast.Lambda) -> Any:
-        """Parameters of a nested lambda hide arguments of the same name, and must not
-        capture a name that is free in an argument we are substituting."""
+    def _bind(self, mapping: _lambda_scope, name: str) -> str:
+        """Record in `mapping` that `name` is bound by a nested lambda or comprehension. It gets
+        a new name if it would capture a name that is free in an argument we are substituting.
+        """
         free_in_args = {
             n.id
             for arg_map in self._arg_map_list
@@ -425,20 +426,55 @@ class _resolve_called_lambdas(ast.NodeTransformer):
             for n in ast.walk(v)
             if isinstance(n, ast.Name)
         }
+        new_name = name
+        if name in free_in_args:
+            _resolve_called_lambdas._rename_counter += 1
+            new_name = f"{name}_r{_resolve_called_lambdas._rename_counter}"
+        mapping[name] = ast.Name(new_name, ast.Load())
+        return new_name
+
+    def visit_Lambda(self, node: ast.Lambda) -> Any:
+        """Parameters of a nested lambda hide arguments of the same name, and must not
+        capture a name that is free in an argument we are substituting."""
         mapping = _lambda_scope()
         new_args = copy.copy(node.args)
         new_args.args = []
         for a in node.args.args:
-            new_name = a.arg
-            if a.arg in free_in_args:
-                _resolve_called_lambdas._rename_counter += 1
-                new_name = f"{a.arg}_r{_resolve_called_lambdas._rename_counter}"
-            mapping[a.arg] = ast.Name(new_name, ast.Load())
-            new_args.args.append(ast.arg(arg=new_name, annotation=None))
+            new_args.args.append(ast.arg(arg=self._bind(mapping, a.arg), annotation=None))
         self._arg_map_list.append(mapping)
         new_body = self.visit(node.body)
         self._arg_map_list.pop()
         return ast.Lambda(new_args, new_body)
+
+    def _visit_comprehension(self, node: Any) -> Any:
+        """The loop variables of a comprehension behave like the parameters of a nested lambda,
+        everywhere but in the first iterable (which python evaluates in the enclosing scope)."""
+        first_iter = self.visit(node.generators[0].iter)
+        mapping = _lambda_scope()
+        new_node = copy.copy(node)
+        new_node.generators = []
+        for g in node.generators:
+            new_target = copy.deepcopy(g.target)
+            for n in ast.walk(new_target):
+                if isinstance(n, ast.Name):
+                    n.id = self._bind(mapping, n.id)
+            new_node.generators.append(
+                ast.comprehension(target=new_target, iter=g.iter, ifs=g.ifs, is_async=g.is_async)
+            )
+        self._arg_map_list.append(mapping)
+        for i, g in enumerate(new_node.generators):
+            g.iter = first_iter if i == 0 else self.visit(g.iter)
+            g.ifs = [self.visit(c) for c in g.ifs]
+        for f in ("elt", "key", "value"):
+            if hasattr(node, f):
+                setattr(new_node, f, self.visit(getattr(node, f)))
+        self._arg_map_list.pop()
+        return new_node
+
+    visit_ListComp = _visit_comprehension
+    visit_GeneratorExp = _visit_comprehension
+    visit_SetComp = _visit_comprehension
+    visit_DictComp = _visit_comprehension
 
     def visit_Name(self, node: ast.Name) -> Any:
         "Look through the arg map to see if it is a argument"
